@@ -6,41 +6,105 @@ import SnootyVerif.Proofs.Diag
 Property theorems only; model in `Model/Diag.lean`, lemmas in `Proofs/Diag.lean`.
 The model is the code *with* fix.patch applied for `__init__` / `main.Backend.on_update`
 (both now pass through the silence filter, one spelling of snooty.toml); the behaviour
-before the fix is kept as `onStreamOrig` for the refutation. `merge_diagnostics` is unchanged
-code and loses diagnostics when one source has several outputs with different lists
-(`merge_conservation_refuted`, known finding).
+before the fix is kept as `onStreamOrig` for the refutation. `merge_diagnostics` is modelled WITH fix2.patch
+(accumulate over all outputs of a source, each object once); the last-output-wins code before it is kept as
+`mergeDiagnosticsOld` (`merge_conservation_refuted`).
 -/
 namespace SnootyVerif.C14
 open SnootyVerif.Diag
 
 /-! ## merge -/
 
-/-- What `merge_diagnostics` returns for file `f`, exactly, with no hypothesis on the producers:
-the list of the *last* output of `f`, then the orphan diagnostics of `f`, then `others[0][f]`, `others[1][f]`, …
-(`order` = iteration order of the key set, any duplicate-free enumeration of the keys of `others`). -/
-theorem merge_exact (parsed : List Out) (orphan : DMap) (order : List FileId) (others : List DMap)
+/-- the generic tail of `merge_diagnostics`: per-source dict `base`, then orphan, then the other maps -/
+theorem mergeFrom_exact (base : DMap) (orphan : DMap) (order : List FileId) (others : List DMap)
     (hn : order.Nodup) (hk : ∀ f, f ∈ order ↔ ∃ o ∈ others, f ∈ keys o) (f : FileId) :
-    mergedAt (mergeDiagnostics parsed orphan order others) f =
-      (parsedLast parsed f).getD [] ++ getAll orphan f ++ extendFrom others f := by
+    mergedAt (mergeFrom base orphan order others) f =
+      mergedAt base f ++ getAll orphan f ++ extendFrom others f := by
   unfold mergedAt
-  rw [lookup_merge _ _ _ _ _ hn]
+  rw [lookup_mergeFrom _ _ _ _ _ hn]
   by_cases h3 : f ∈ order
   · simp [h3]
   · have he : extendFrom others f = [] :=
       extendFrom_nil_of_not_mem others f (fun o ho hm => h3 ((hk f).mpr ⟨o, ho, hm⟩))
-    by_cases h1 : f ∈ srcs parsed
+    by_cases h1 : f ∈ keys base
     · simp [h1, h3, he]
-    · have hp := (parsedLast_none_iff parsed f).mpr h1
+    · have hp := (lookup_eq_none_iff base f).mpr h1
       by_cases h2 : f ∈ keys orphan
-      · simp [h1, h2, h3, he]
+      · simp [h1, h2, h3, he, hp]
       · simp [h1, h2, h3, he, hp, getAll_of_not_mem_keys orphan f h2]
 
-/-- The full conservation law ("nothing the parse producer reported is dropped") is FALSE for the code as it
-stands: two outputs of one yaml file, the first carrying a diagnostic the second does not (a missing image in
-the first extract: its `CannotOpenFile` is appended by `page.finish` to that output's list only). -/
+/-- What the fixed `merge_diagnostics` returns for file `f`, exactly, with no hypothesis on the producers:
+the accumulation over ALL outputs of `f` (each object once, first-seen order), then the orphan diagnostics of `f`,
+then `others[0][f]`, `others[1][f]`, … (`order` = iteration order of the key set). -/
+theorem merge_exact (parsed : List Out) (orphan : DMap) (order : List FileId) (others : List DMap)
+    (hn : order.Nodup) (hk : ∀ f, f ∈ order ↔ ∃ o ∈ others, f ∈ keys o) (f : FileId) :
+    mergedAt (mergeDiagnostics parsed orphan order others) f =
+      parsedUnion parsed f ++ getAll orphan f ++ extendFrom others f := by
+  unfold mergeDiagnostics
+  rw [mergeFrom_exact _ _ _ _ hn hk f, mergedAt_parsedResult]
+
+/-- FULL conservation law of the fixed code, no equal-lists hypothesis: per file the merged list is the first
+occurrences (by object identity, in order) of the concatenation of the lists of ALL outputs of that source,
+followed by orphan and others. `hU`: no list holds the same object twice. -/
+theorem merge_conservation (parsed : List Out) (orphan : DMap) (order : List FileId) (others : List DMap)
+    (hn : order.Nodup) (hk : ∀ f, f ∈ order ↔ ∃ o ∈ others, f ∈ keys o) (hU : OutputsNodup parsed) (f : FileId) :
+    mergedAt (mergeDiagnostics parsed orphan order others) f =
+      dedupInto [] (parsedAll parsed f) ++ getAll orphan f ++ extendFrom others f := by
+  rw [merge_exact parsed orphan order others hn hk f]
+  unfold parsedUnion
+  rw [foldl_accum_eq_dedup parsed f [] hU]
+
+/-- … so every diagnostic of every output of a source is in the merged list of that source (as the same
+object), exactly once. -/
+theorem merge_each_output_once (parsed : List Out) (hU : OutputsNodup parsed) (f : FileId) :
+    (∀ o ∈ parsed, o.src = f → ∀ d ∈ o.ds, ∃ d' ∈ parsedUnion parsed f, d'.oid = d.oid) ∧
+    (IdsFaithful (parsedAll parsed f) → ∀ o ∈ parsed, o.src = f → ∀ d ∈ o.ds, d ∈ parsedUnion parsed f) ∧
+    ((parsedUnion parsed f).map (·.oid)).Nodup := by
+  have hE : parsedUnion parsed f = dedupInto [] (parsedAll parsed f) := by
+    unfold parsedUnion; exact foldl_accum_eq_dedup parsed f [] hU
+  have hin : ∀ o ∈ parsed, o.src = f → ∀ d ∈ o.ds, d ∈ parsedAll parsed f := by
+    intro o ho hs d hd
+    exact List.mem_flatMap.mpr ⟨o, ho, by simp [hs, hd]⟩
+  rw [hE]
+  refine ⟨?_, ?_, dedupInto_nodup [] _ (by simp)⟩
+  · intro o ho hs d hd
+    exact dedupInto_complete [] _ d (hin o ho hs d hd)
+  · intro hF o ho hs d hd
+    obtain ⟨d', hd', he⟩ := dedupInto_complete [] _ d (hin o ho hs d hd)
+    have hm : d' ∈ parsedAll parsed f := by
+      rcases mem_dedupInto [] _ d' hd' with h | h
+      · cases h
+      · exact h
+    rw [← hF d' hm d (hin o ho hs d hd) he]; exact hd'
+
+/-- nothing any producer reported is dropped (fixed code, no equal-lists hypothesis) -/
+theorem merge_nothing_dropped (parsed : List Out) (orphan : DMap) (order : List FileId) (others : List DMap)
+    (hn : order.Nodup) (hk : ∀ f, f ∈ order ↔ ∃ o ∈ others, f ∈ keys o) (hU : OutputsNodup parsed)
+    (f : FileId) (d : D) (h : d ∈ parsedAll parsed f ∨ d ∈ getAll orphan f ∨ d ∈ extendFrom others f) :
+    ∃ d' ∈ mergedAt (mergeDiagnostics parsed orphan order others) f, d'.oid = d.oid := by
+  rw [merge_conservation parsed orphan order others hn hk hU f]
+  rcases h with h | h | h
+  · obtain ⟨d', hd', he⟩ := dedupInto_complete [] _ d h
+    exact ⟨d', by simp [hd'], he⟩
+  · exact ⟨d, by simp [h], rfl⟩
+  · exact ⟨d, by simp [h], rfl⟩
+
+/-- The code before the fix kept only the list of the LAST output of a source … -/
+theorem merge_old_exact (parsed : List Out) (orphan : DMap) (order : List FileId) (others : List DMap)
+    (hn : order.Nodup) (hk : ∀ f, f ∈ order ↔ ∃ o ∈ others, f ∈ keys o) (f : FileId) :
+    mergedAt (mergeDiagnosticsOld parsed orphan order others) f =
+      (parsedLast parsed f).getD [] ++ getAll orphan f ++ extendFrom others f := by
+  unfold mergeDiagnosticsOld
+  rw [mergeFrom_exact _ _ _ _ hn hk f]
+  unfold mergedAt
+  rw [lookup_parsedResultOld]
+
+/-- … so the conservation law was FALSE for it: two outputs of one yaml file, the first carrying a diagnostic
+the second does not (a missing image in the first extract: its `CannotOpenFile` is appended by `page.finish`
+to that output's list only). -/
 theorem merge_conservation_refuted :
     ¬ (∀ (parsed : List Out) (orphan : DMap) (order : List FileId) (others : List DMap) (f : FileId),
-        order.Nodup → ∀ d ∈ parsedAll parsed f, d ∈ mergedAt (mergeDiagnostics parsed orphan order others) f) := by
+        order.Nodup → ∀ d ∈ parsedAll parsed f, d ∈ mergedAt (mergeDiagnosticsOld parsed orphan order others) f) := by
   intro h
   have := h [⟨"includes/extracts/a.rst", "includes/extracts-x.yaml", [⟨"CannotOpenFile", 2, 3, 0⟩]⟩,
              ⟨"includes/extracts/b.rst", "includes/extracts-x.yaml", []⟩] [] [] []
@@ -48,42 +112,27 @@ theorem merge_conservation_refuted :
   revert this
   decide
 
-/-- Conservation under the hypothesis that outputs sharing a source carry equal lists: per file the merged list
-is (the list of any output of that source) ++ orphan ++ others — equal as lists, hence as multisets, with the
-order inside each source kept. -/
-theorem merge_conservation_partial (parsed : List Out) (orphan : DMap) (order : List FileId) (others : List DMap)
+/-- the fixed code on the same witness keeps it -/
+example : mergedAt (mergeDiagnostics
+      [⟨"includes/extracts/a.rst", "includes/extracts-x.yaml", [⟨"DocUtilsParseError", 5, 3, 7⟩, ⟨"CannotOpenFile", 2, 3, 0⟩]⟩,
+       ⟨"includes/extracts/b.rst", "includes/extracts-x.yaml", [⟨"DocUtilsParseError", 5, 3, 7⟩, ⟨"CannotOpenFile", 2, 3, 1⟩]⟩]
+      [] [] []) "includes/extracts-x.yaml"
+    = [⟨"DocUtilsParseError", 5, 3, 7⟩, ⟨"CannotOpenFile", 2, 3, 0⟩, ⟨"CannotOpenFile", 2, 3, 1⟩] := by decide
+
+/-- what was provable for the old code: conservation under the hypothesis that outputs sharing a source carry
+equal lists -/
+theorem merge_conservation_old_partial (parsed : List Out) (orphan : DMap) (order : List FileId) (others : List DMap)
     (hE : EqualLists parsed) (hn : order.Nodup) (hk : ∀ f, f ∈ order ↔ ∃ o ∈ others, f ∈ keys o) (f : FileId) :
     (∀ o ∈ parsed, o.src = f →
-        mergedAt (mergeDiagnostics parsed orphan order others) f = o.ds ++ getAll orphan f ++ extendFrom others f) ∧
+        mergedAt (mergeDiagnosticsOld parsed orphan order others) f = o.ds ++ getAll orphan f ++ extendFrom others f) ∧
     (f ∉ srcs parsed →
-        mergedAt (mergeDiagnostics parsed orphan order others) f = getAll orphan f ++ extendFrom others f) := by
-  rw [merge_exact parsed orphan order others hn hk f]
+        mergedAt (mergeDiagnosticsOld parsed orphan order others) f = getAll orphan f ++ extendFrom others f) := by
+  rw [merge_old_exact parsed orphan order others hn hk f]
   constructor
   · intro o ho hs
     rw [parsedLast_of_equalLists parsed f hE o ho hs]; rfl
   · intro h
     rw [(parsedLast_none_iff parsed f).mpr h]; rfl
-
-/-- … in particular nothing any producer reported is dropped. -/
-theorem merge_nothing_dropped (parsed : List Out) (orphan : DMap) (order : List FileId) (others : List DMap)
-    (hE : EqualLists parsed) (hn : order.Nodup) (hk : ∀ f, f ∈ order ↔ ∃ o ∈ others, f ∈ keys o) (f : FileId) (d : D)
-    (h : d ∈ parsedAll parsed f ∨ d ∈ getAll orphan f ∨ d ∈ extendFrom others f) :
-    d ∈ mergedAt (mergeDiagnostics parsed orphan order others) f := by
-  have hc := merge_conservation_partial parsed orphan order others hE hn hk f
-  rcases h with h | h | h
-  · unfold parsedAll at h
-    obtain ⟨o, ho, hd⟩ := List.mem_flatMap.mp h
-    by_cases hs : o.src = f
-    · rw [hc.1 o ho hs]; simp only [hs, if_true] at hd; simp [hd]
-    · simp [hs] at hd
-  · by_cases hs : f ∈ srcs parsed
-    · obtain ⟨o, ho, hs'⟩ := List.mem_map.mp hs
-      rw [hc.1 o ho hs']; simp [h]
-    · rw [hc.2 hs]; simp [h]
-  · by_cases hs : f ∈ srcs parsed
-    · obtain ⟨o, ho, hs'⟩ := List.mem_map.mp hs
-      rw [hc.1 o ho hs']; simp [h]
-    · rw [hc.2 hs]; simp [h]
 
 example : mergedAt (mergeDiagnostics
       [⟨"a.txt", "a.txt", [⟨"X", 1, 3, 0⟩]⟩, ⟨"o1", "s.yaml", [⟨"Y", 2, 3, 1⟩]⟩, ⟨"o2", "s.yaml", [⟨"Y", 2, 3, 1⟩]⟩]
@@ -100,7 +149,9 @@ theorem merge_keys (parsed : List Out) (orphan : DMap) (order : List FileId) (ot
     (hn : order.Nodup) (hk : ∀ f, f ∈ order ↔ ∃ o ∈ others, f ∈ keys o) (f : FileId) :
     f ∈ keys (mergeDiagnostics parsed orphan order others) ↔
       f ∈ srcs parsed ∨ f ∈ keys orphan ∨ ∃ o ∈ others, f ∈ keys o := by
-  rw [← lookup_isSome_iff_mem_keys, lookup_merge _ _ _ _ _ hn, ← hk f]
+  unfold mergeDiagnostics
+  rw [← lookup_isSome_iff_mem_keys, lookup_mergeFrom _ _ _ _ _ hn, ← hk f]
+  have hkp := keys_parsedResult parsed f
   split <;> simp_all
 
 /-- Nothing is invented and nothing is filed under another file: a diagnostic in the merged list of `f` was
@@ -113,9 +164,10 @@ theorem merge_nothing_invented (parsed : List Out) (orphan : DMap) (order : List
   simp only [List.mem_append] at h
   rcases h with (h | h) | h
   · left
-    cases hp : parsedLast parsed f with
-    | none => simp [hp] at h
-    | some l => rw [hp] at h; exact parsedLast_subset parsed f l hp d h
+    unfold parsedUnion at h
+    rcases mem_foldl_accum parsed f [] d h with h1 | h1
+    · cases h1
+    · exact h1
   · right; left; exact h
   · right; right
     unfold extendFrom at h
@@ -198,13 +250,13 @@ theorem delivered_complete (S : List String) (p : Producers) (f : FileId) (d : D
   · exact Or.inl (Or.inr h)
   · exact Or.inr h
 
-/-- The final set of file `f` (before the filter), exactly: last output's list ++ orphan ++ postprocess ++ init.
+/-- The final set of file `f` (before the filter), exactly: union over all outputs ++ orphan ++ postprocess ++ init.
 `hOut`: output ids are distinct (one `_page_updated` per output in a build). -/
 theorem final_set_exact (p : Producers)
     (hOut : ((p.parsedA ++ p.parsedB).map (·.out)).Nodup) (hn : p.order.Nodup)
     (hk : ∀ f, f ∈ p.order ↔ ∃ o ∈ [p.post, initMap p.cfg p.init], f ∈ keys o) (f : FileId) :
     mergedAt (finalMerged p) f =
-      (parsedLast (p.parsedA ++ p.parsedB) f).getD [] ++ getAll p.orphan f ++ mergedAt p.post f
+      parsedUnion (p.parsedA ++ p.parsedB) f ++ getAll p.orphan f ++ mergedAt p.post f
         ++ (if f = p.cfg then p.init.flatten else []) := by
   unfold finalMerged
   rw [pagesStore_nodup _ hOut, merge_exact _ _ _ _ hn hk f]
@@ -228,9 +280,10 @@ theorem final_subset_incremental (S : List String) (p : Producers)
   simp only [List.mem_append] at h
   rcases h with ((h | h) | h) | h
   · right; left
-    cases hp : parsedLast (p.parsedA ++ p.parsedB) f with
-    | none => simp [hp] at h
-    | some l => rw [hp] at h; exact parsedLast_subset _ f l hp d h
+    unfold parsedUnion at h
+    rcases mem_foldl_accum _ f [] d h with h1 | h1
+    · cases h1
+    · exact h1
   · right; right; right; left; exact h
   · right; right; right; right
     unfold mergedAt at h
@@ -241,6 +294,45 @@ theorem final_subset_incremental (S : List String) (p : Producers)
     by_cases hc : f = p.cfg
     · simp only [hc, if_true] at h; exact ⟨hc, h⟩
     · simp [hc] at h
+
+/-- Conversely, nothing delivered through `on_diagnostics` for a file is missing from its final set
+(no hypothesis on how many outputs a source has). `hU`: no list holds one object twice; `hP`: the postprocess
+result is a dict; `hN`: no nested-project diagnostics (they are reported incrementally only);
+`hF`: object identity determines the object. -/
+theorem incremental_subset_final (S : List String) (p : Producers)
+    (hOut : ((p.parsedA ++ p.parsedB).map (·.out)).Nodup) (hn : p.order.Nodup)
+    (hk : ∀ f, f ∈ p.order ↔ ∃ o ∈ [p.post, initMap p.cfg p.init], f ∈ keys o)
+    (hU : OutputsNodup (p.parsedA ++ p.parsedB)) (hP : (keys p.post).Nodup) (hN : p.nested = [])
+    (f : FileId) (hF : IdsFaithful (parsedAll (p.parsedA ++ p.parsedB) f)) (d : D)
+    (h : d ∈ deliveredAt (onStream S p) f) : d ∈ filterDiagnostics S (mergedAt (finalMerged p) f) := by
+  rw [on_channel_exact, mem_filterDiagnostics] at h
+  obtain ⟨h, hS⟩ := h
+  rw [mem_filterDiagnostics]
+  refine ⟨?_, hS⟩
+  rw [final_set_exact p hOut hn hk f]
+  simp only [List.mem_append, hN, getAll, List.flatMap_nil, List.not_mem_nil, or_false] at h
+  simp only [List.mem_append]
+  have hpar : d ∈ parsedAll (p.parsedA ++ p.parsedB) f → d ∈ parsedUnion (p.parsedA ++ p.parsedB) f := by
+    intro hd
+    have hE : parsedUnion (p.parsedA ++ p.parsedB) f = dedupInto [] (parsedAll (p.parsedA ++ p.parsedB) f) := by
+      unfold parsedUnion; exact foldl_accum_eq_dedup _ f [] hU
+    rw [hE]
+    obtain ⟨d', hd', he⟩ := dedupInto_complete [] _ d hd
+    have hm : d' ∈ parsedAll (p.parsedA ++ p.parsedB) f := by
+      rcases mem_dedupInto [] _ d' hd' with h | h
+      · cases h
+      · exact h
+    rw [← hF d' hm d hd he]; exact hd'
+  rcases h with (((h | h) | h) | h) | h
+  · right; exact h
+  · left; left; left; apply hpar; simp only [parsedAll, List.flatMap_append, List.mem_append]; left; exact h
+  · left; left; left; apply hpar; simp only [parsedAll, List.flatMap_append, List.mem_append]; right; exact h
+  · left; left; right; exact h
+  · left; right
+    have := getAll_eq_lookup_of_nodup p.post f hP
+    simp only [getAll] at this
+    unfold mergedAt
+    rw [← this]; exact h
 
 example : onStream ["OrphanedPage"] ⟨"snooty.toml", [[], [⟨"DocUtilsParseError", 0, 3, 0⟩]],
       [⟨"a.txt", "a.txt", [⟨"X", 1, 3, 1⟩]⟩], [], [], [], [("a.txt", [⟨"OrphanedPage", 0, 2, 2⟩])], ["a.txt", "snooty.toml"]⟩
